@@ -17,6 +17,59 @@ use crate::types::*;
 
 pub struct C04;
 
+/// `Tokenizer::new_params` over the parameter text of one unit: the data elements of a
+/// well-formed unit separated by data separators; for a leading comma an error.
+fn params_lexer(u: &Unit) -> Option<(String, String)> {
+    use scpi::parser::tokenizer::{Token, Tokenizer};
+    let leading_comma = matches!(&u.pfault, Some(f) if f.kind == "leading_comma");
+    if u.pfault.is_some() && !leading_comma {
+        return None;
+    }
+    let mut text: Vec<u8> = Vec::new();
+    if leading_comma {
+        text.push(b',');
+    }
+    for (j, e) in u.params.iter().enumerate() {
+        if j > 0 {
+            text.extend_from_slice(u.psep.get(j - 1).map(|p| p.as_slice()).unwrap_or(b","));
+        }
+        render_elem(e, &mut text);
+    }
+    text.extend_from_slice(u.tail.as_slice());
+    let r = std::panic::catch_unwind(|| {
+        let mut got: Vec<core::result::Result<Tok, i16>> = Vec::new();
+        for t in Tokenizer::new_params(&text) {
+            match t {
+                Ok(Token::ProgramDataSeparator) => {}
+                Ok(tok) => got.push(Ok(crate::device::obs_tok(&tok))),
+                Err(e) => {
+                    got.push(Err(e.get_code()));
+                    break;
+                }
+            }
+            if got.len() > text.len() + 1 {
+                break;
+            }
+        }
+        got
+    });
+    let got = match r {
+        Ok(g) => g,
+        Err(_) => return Some(("params_lexer_panicked".into(), format!("Tokenizer::new_params({:?}) panicked: {}", B(text.clone()), crate::exec::take_panic()))),
+    };
+    if leading_comma {
+        return match got.first() {
+            Some(Err(c)) if is_command_error(*c) => None,
+            other => Some(("leading_comma_accepted_by_new_params".into(), format!("Tokenizer::new_params({:?}) starts with {:?}, expected a command error", B(text.clone()), other))),
+        };
+    }
+    let exp: Vec<core::result::Result<Tok, i16>> = u.params.iter().filter_map(expected_tok).map(Ok).collect();
+    if got != exp {
+        return Some(("new_params_disagrees_with_message_lexing".into(), format!("Tokenizer::new_params({:?}) yields {:?}, the elements are {:?}", B(text.clone()), got, exp)));
+    }
+    None
+}
+
 /// A message damaged in flight whose bytes are still a member of the strict language: its
 /// decomposition is known, so element integrity and the result can be judged.
 fn check_corrupted(world: &mut World, before: &ModelState, i: usize, s: &SendStep, o: &SendObs, stats: &mut Stats, out: &mut Vec<Finding>) {
@@ -197,6 +250,7 @@ impl Prop for C04 {
             controllers: 1,
             tree,
             plain488: false,
+            no_mav: false,
         };
         let mut t = base_trace("C04", seed, run, "lexing", cfg.clone());
         let tc = TreeCtx::new(&cfg.tree);
@@ -287,7 +341,13 @@ impl Prop for C04 {
                             // the handler pulls as many parameters as there are now (some faults
                             // add an element), or sometimes fewer (left-over check must catch it)
                             let n = uu.params.len();
-                            let m_pulls = if rng.chance(1, 4) { rng.usize_below(n + 1) } else { n };
+                            let m_pulls = if rng.chance(1, 4) {
+                                rng.usize_below(n + 1)
+                            } else if rng.chance(1, 3) {
+                                n + 1 // one pull more than there are elements (required or optional)
+                            } else {
+                                n
+                            };
                             uu.plan.pulls = (0..m_pulls)
                                 .map(|_| Pull {
                                     req: rng.chance(2, 3),
@@ -416,6 +476,17 @@ impl Prop for C04 {
                     }
                 }
                 let msgd = describe_msg(s);
+                // the data-only lexer entry point must agree with the in-message lexing
+                for u in &s.msg.units {
+                    if u.hfault.is_some() || u.params.is_empty() {
+                        continue;
+                    }
+                    if let Some((sig, detail)) = params_lexer(u) {
+                        out.push(Finding::new("C04.params_lexer", sig, i, format!("parameters of {}: {}", msgd, detail)));
+                        return;
+                    }
+                    stats.bump("params_lexer_compared");
+                }
                 match &fault_kind {
                     None => {
                         // element integrity
